@@ -505,6 +505,116 @@ def replay_bfs(case):
     return out
 
 
+# ---------------------------------------------------------------------------
+# H: histories of observers and in-place mutators on ONE object.  After every
+# step all views of the object must equal those of a fresh Angle holding the
+# same value (differential oracle: state reached by a history vs the same state
+# reached directly), so anything remembered across calls is exposed.
+
+HIST_EVENTS = [("rad",), ("get_ra",), ("dms_tuple",), ("str",), ("to_positive",),
+               ("set", -90.0), ("set", 370.5), ("set_dms", (-12, 30, 0.5)), ("set_radians", -1.0),
+               ("set_ra", -3.0), ("set_tolerance", 1e-3), ("iadd", 200.0), ("float",)]
+
+
+def views(a):
+    return (a.rad(), a.get_ra(), float(a), a(), a.dms_tuple(), a.ra_tuple(), str(a),
+            a.dms_str(n_dec=2), repr(a), int(a), abs(a)._deg, (-a)._deg,
+            Angle(a).to_positive()._deg)
+
+
+def hist_apply(a, ev):
+    """Returns (object to continue with, expected exact value or None=unchanged)."""
+    k = ev[0]
+    if k == "rad":
+        a.rad()
+    elif k == "get_ra":
+        a.get_ra()
+    elif k == "dms_tuple":
+        a.dms_tuple()
+        a.ra_tuple()
+    elif k == "str":
+        str(a)
+        a.dms_str()
+        a.ra_str()
+    elif k == "float":
+        float(a)
+        int(a)
+        a()
+    elif k == "to_positive":
+        r = a.to_positive()
+        if r is not a:
+            raise AssertionError("to_positive() did not return its receiver")
+    elif k == "set":
+        a.set(ev[1])
+    elif k == "set_dms":
+        a.set(*ev[1])
+    elif k == "set_radians":
+        a.set_radians(ev[1])
+    elif k == "set_ra":
+        a.set_ra(ev[1])
+    elif k == "set_tolerance":
+        a.set_tolerance(ev[1])
+    elif k == "iadd":
+        b = a
+        b += ev[1]
+        return b
+    return a
+
+
+def check_history(case):
+    a = Angle(case["start"])
+    out = []
+    done = []
+    for ev in case["history"]:
+        ev = tuple(tuple(x) if isinstance(x, list) else x for x in ev)
+        try:
+            a = hist_apply(a, ev)
+        except Exception as ex:
+            out.append("history %r + %r raised %r" % (done, ev, ex))
+            break
+        done.append(ev)
+        fresh = Angle(a._deg)
+        try:
+            va, vf = views(a), views(fresh)
+        except Exception as ex:
+            out.append("views after history %r raised %r" % (done, ex))
+            break
+        if va != vf:
+            diff = [i for i in range(len(va)) if va[i] != vf[i]]
+            out.append("after history %r on Angle(%r) the object (value %r) answers %r where a "
+                       "fresh Angle of the same value answers %r (view indexes %r)"
+                       % (done, case["start"], a._deg, [va[i] for i in diff],
+                          [vf[i] for i in diff], diff))
+            break
+        if not (-360.0 < a._deg < 360.0):
+            out.append("after history %r the value %r is outside (-360, 360)" % (done, a._deg))
+    return out
+
+
+def history_cases(depth):
+    out = []
+    for x0 in (-90.0, 123.456, -1e-20, 359.999999999):
+        for d in range(1, depth + 1):
+            for h in itertools.product(HIST_EVENTS, repeat=d):
+                out.append({"start": x0, "history": [list(e) for e in h]})
+    return out
+
+
+def run_history(block, ctx):
+    for case in block:
+        ctx.evals += 1
+        ctx.states += 1
+        ctx.transitions += len(case["history"])
+        ctx.traces += 1
+        if len(case["history"]) > 1:
+            ctx.nt_count += 1
+        for msg in check_history(case):
+            ctx.viol(case, msg, site="object_history")
+        ctx.outcome(len(case["history"]))
+    ctx.obs(len(block))
+    ctx.sample(block[len(block) // 2])
+
+
 def ctor_values():
     vals = set()
     for m in MAGS:
@@ -527,4 +637,6 @@ def clauses(tier):
         Clause("sexagesimal", chunks(dms, 32), run_ctor3,
                lambda c: [m for _, m, _ in check_ctor3(c)], floor=3000),
         Clause("operator_bfs", specs, run_bfs, replay_bfs, floor=5000, shape="H"),
+        Clause("object_history", chunks(history_cases(4 if tier == "thorough" else 3), 32),
+               run_history, check_history, floor=1000, shape="H"),
     ]
